@@ -16,7 +16,8 @@ sys_path_tools = os.path.join(VERIF, "tools")
 import sys as _sys
 if sys_path_tools not in _sys.path:
     _sys.path.insert(0, sys_path_tools)
-from gen_harness import PALETTE16  # noqa: E402
+from gen_harness import PALETTE16, query_family, views_text, filter_text  # noqa: E402
+QFAM = {5: query_family(5), 16: query_family(16)}
 CACHE = os.path.join(BUILD, "cache")
 
 
@@ -81,7 +82,7 @@ def gen_case(rng, max_ops, mirror=False, ncomp=5):
         ws = rng.choice(wss)
         kind = rng.weighted([("ins", 22), ("ext", 12), ("rem", 18), ("ead", 8), ("erm", 8), ("wrt", 6),
                              ("clr", 2), ("shr", 3), ("rsv", 3), ("rset", 2), ("cln", 3), ("clf", 3),
-                             ("srd", 4), ("eq", 3), ("drop", 1), ("new", 1)])
+                             ("srd", 4), ("eq", 3), ("drop", 1), ("new", 1), ("qry", 9), ("eqry", 5), ("qwr", 3)])
         if kind == "ins":
             mask = rng.choice(palette) if rng.chance(5, 6) else anymask()
             desc = rng.below(2)
@@ -135,6 +136,16 @@ def gen_case(rng, max_ops, mirror=False, ncomp=5):
                                                   rng.below(20))).replace("  ", " "))
         elif kind == "rset":
             lines.append("rset %d %d %d %d" % (ws, rng.below(4), fresh(), rng.below(3)))
+        elif kind in ("qry", "eqry", "qwr"):
+            fam = QFAM[ncomp]
+            k = rng.below(len(fam))
+            vs, f = fam[k]
+            if kind == "qry":
+                lines.append("qry %d %d %s %s" % (ws, k, views_text(vs), filter_text(f)))
+            elif kind == "eqry":
+                lines.append("eqry %d %s %d %s %s" % (ws, target(ws), k, views_text(vs), filter_text(f)))
+            else:
+                lines.append("qwr %d %d %d %s %s" % (ws, k, 1 + rng.below(1000), views_text(vs), filter_text(f)))
         elif kind == "cln":
             dst = rng.below(nworlds)
             if dst == ws:
@@ -469,6 +480,88 @@ def eid(s):
     return (int(i), int(g))
 
 
+def parse_views_text(s):
+    if s == "-":
+        return []
+    out = []
+    for t in s.split(";"):
+        if t == "id":
+            out.append(("id", -1))
+        elif t.startswith("or") or t.startswith("om"):
+            out.append((t[:2], int(t[2:])))
+        else:
+            out.append((t[0], int(t[1:])))
+    return out
+
+
+def parse_filter_text(s):
+    pos = [0]
+
+    def num():
+        st = pos[0]
+        while pos[0] < len(s) and s[pos[0]].isdigit():
+            pos[0] += 1
+        return int(s[st:pos[0]])
+
+    def go():
+        c = s[pos[0]]
+        pos[0] += 1
+        if c == "n":
+            return ("n",)
+        if c == "h":
+            return ("h", num())
+        if c == "!":
+            return ("!", go())
+        if c in "&|":
+            pos[0] += 1
+            a = go()
+            pos[0] += 1
+            b = go()
+            pos[0] += 1
+            return (c, a, b)
+        if c == "v":
+            pos[0] += 1
+            st = pos[0]
+            while s[pos[0]] != "]":
+                pos[0] += 1
+            vs = parse_views_text(s[st:pos[0]])
+            pos[0] += 1
+            return ("v", vs)
+        raise ValueError(s)
+    return go()
+
+
+def spec_filter(f, comps):
+    """The filter as the documentation states it, on the set of components an entity has."""
+    if f[0] == "n":
+        return True
+    if f[0] == "h":
+        return f[1] in comps
+    if f[0] == "!":
+        return not spec_filter(f[1], comps)
+    if f[0] == "&":
+        return spec_filter(f[1], comps) and spec_filter(f[2], comps)
+    if f[0] == "|":
+        return spec_filter(f[1], comps) or spec_filter(f[2], comps)
+    return all(c in comps for k, c in f[1] if k in ("r", "m"))
+
+
+def spec_matches(vs, f, comps):
+    return all(c in comps for k, c in vs if k in ("r", "m")) and spec_filter(f, comps)
+
+
+def spec_row(vs, e, cv):
+    items = []
+    for k, c in vs:
+        if k == "id":
+            items.append("%d:%d" % e)
+        elif k in ("r", "m"):
+            items.append("v%d" % cv[c])
+        else:
+            items.append("s%d" % cv[c] if c in cv else "n")
+    return ",".join(items) or "_"
+
+
 class RefWorlds:
     """The reference map of C01 (plus issued-set history for C02, resources for C15),
     driven by the implementation's own return values."""
@@ -567,6 +660,41 @@ class RefWorlds:
             ws = int(t[1])
             if ws in self.res:
                 self.res[ws][int(t[2])] = norm_val(100 + int(t[2]), int(t[3]))
+        elif k == "qry":
+            ws = int(t[1])
+            if ws in self.maps:
+                vs, f = parse_views_text(t[3]), parse_filter_text(t[4])
+                want = sorted(spec_row(vs, e, cv) for e, cv in self.maps[ws].items() if spec_matches(vs, f, cv))
+                got = ret.split()[1:] if ret.startswith("rows") else None
+                flags = [x for x in (got or []) if x.startswith("!")]
+                got = [x for x in (got or []) if not x.startswith("!")] if got is not None else None
+                if flags:
+                    fails.append(("C03", "size_hint does not bracket the remaining count: %s (query %s %s)" % (flags[0], t[3], t[4])))
+                if got != want:
+                    fails.append(("C03", "query %s filter %s returned %s, the map holds %s" % (t[3], t[4], got, want)))
+        elif k == "eqry":
+            ws = int(t[1])
+            if ws in self.maps:
+                e = eid(t[2])
+                vs, f = parse_views_text(t[4]), parse_filter_text(t[5])
+                cv = self.maps[ws].get(e)
+                want = "noentry" if cv is None else ("row " + spec_row(vs, e, cv) if spec_matches(vs, f, cv) else "nomatch")
+                if ret != want:
+                    fails.append(("C03", "entry query %s filter %s on %s returned %r, expected %r" % (t[4], t[5], e, ret, want)))
+        elif k == "qwr":
+            ws = int(t[1])
+            if ws in self.maps:
+                delta = int(t[3])
+                vs, f = parse_views_text(t[4]), parse_filter_text(t[5])
+                n = 0
+                for e, cv in self.maps[ws].items():
+                    if spec_matches(vs, f, cv):
+                        for kd, c in vs:
+                            if kd in ("m", "om") and c in cv:
+                                cv[c] = norm_val(c, (cv[c] + delta) & 0xFFFFFFFFFFFFFFFF)
+                                n += 1
+                if ret != "n %d" % n:
+                    fails.append(("C03", "mutable query %s filter %s wrote %r components, expected %d" % (t[4], t[5], ret, n)))
         elif k in ("cln", "clf", "srd"):
             if k == "cln":
                 src, dst = int(t[1]), int(t[2])
@@ -700,6 +828,15 @@ def oracle_case(impl_case):
             comps_ = ref.maps[int(t[1])].get(eid(t[2]))
             if comps_ is not None and int(t[3]) in comps_:
                 overwritten = (int(t[3]), comps_[int(t[3])])
+        qwr_drops = None
+        if k == "qwr" and int(t[1]) in ref.maps:
+            qvs, qf = parse_views_text(t[4]), parse_filter_text(t[5])
+            qwr_drops = Counter()
+            for e_, cv_ in ref.maps[int(t[1])].items():
+                if spec_matches(qvs, qf, cv_):
+                    for kd_, c_ in qvs:
+                        if kd_ in ("m", "om") and c_ in cv_:
+                            qwr_drops["D:%d:%d" % (c_, cv_[c_])] += 1
         f, kn = ref.apply(st)
         for p, m in f:
             fails.append((i, p, m))
@@ -733,6 +870,8 @@ def oracle_case(impl_case):
                 check_ledger = False
         elif k == "new":
             check_ledger = False
+        elif k == "qwr":
+            exp = qwr_drops if qwr_drops is not None else Counter()
         else:
             for (c, v), n in (before - after).items():
                 exp["D:%d:%d" % (c, v)] += n
